@@ -87,6 +87,20 @@ inductive IncKind where
   | preInc | preDec | postInc | postDec
   deriving DecidableEq, Repr
 
+def IncKind.isInc : IncKind → Bool
+  | .preInc | .postInc => true
+  | _ => false
+
+def IncKind.isPre : IncKind → Bool
+  | .preInc | .preDec => true
+  | _ => false
+
+@[simp] theorem Res.ok_bind {α β} (a : α) (f : α → Res β) : (Res.ok a >>= f) = f a := rfl
+@[simp] theorem Res.err_bind {α β} (f : α → Res β) : ((Res.err : Res α) >>= f) = Res.err := rfl
+@[simp] theorem Res.crash_bind {α β} (f : α → Res β) : ((Res.crash : Res α) >>= f) = Res.crash := rfl
+@[simp] theorem Res.fuel_bind {α β} (f : α → Res β) : ((Res.fuel : Res α) >>= f) = Res.fuel := rfl
+@[simp] theorem Res.pure_eq {α} (a : α) : (pure a : Res α) = Res.ok a := rfl
+
 variable {R : Type}
 
 def decBytes (n : Int) : List UInt8 := (toString n).toUTF8.toList
@@ -237,8 +251,8 @@ def assignop (F : FloatOps R) (op : BinOp) (old rhs : Value R) : Res (Value R ×
 def incdec (F : FloatOps R) (k : IncKind) (old : Value R) : Res (Value R × Value R) :=
   match old with
   | .int _ | .real _ => do
-    let v ← binop F (match k with | .preInc | .postInc => .add | _ => .sub) old (.int 1)
-    pure (v, match k with | .preInc | .preDec => v | _ => old)
+    let v ← binop F (if k.isInc then .add else .sub) old (.int 1)
+    pure (v, if k.isPre then v else old)
   | _ => .err
 
 def byteVal (b : UInt8) : Value R := .int b.toNat
